@@ -88,8 +88,26 @@ def _until_contract(fn):
         families=['Script'], ret=ANY,
         requires=['len(self._code_lines) >= 1', '1 <= line and line <= len(self._code_lines)'],
         raises={'ValueError': None, 'RefactoringError': None},
+        # (C07, error clause) the range check itself rejects only positions that are really outside the text: a
+        # ValueError raised before the refactoring proper was entered implies an out-of-range until_line; and the
+        # refactoring is entered with exactly the completed until-position
+        ensures_exc=[
+            'implies(exc_class == "ValueError" and "extract" not in EFFECTS, '
+            'until_column is None and not (0 < (line if until_line is None else until_line) '
+            'and (line if until_line is None else until_line) <= len(self._code_lines)))'],
+        ensures=[
+            'implies(until_line is None and until_column is None, '
+            'result == %s(self._inference_state, self.path, self._module_node, new_name, (line, column), None))' % fn,
+            'implies(until_column is None and until_line is not None, '
+            'result == %s(self._inference_state, self.path, self._module_node, new_name, (line, column), '
+            '((until_line if until_line is not None else line), '
+            'len(self._code_lines[(until_line if until_line is not None else line) - 1]))))' % fn,
+            'implies(until_column is not None, '
+            'result == %s(self._inference_state, self.path, self._module_node, new_name, (line, column), '
+            '(line if until_line is None else until_line, (until_column if until_column is not None else 0))))' % fn,
+        ],
         names={fn: FnSpec(fn, params=[('inference_state', ANY), ('path', ANY), ('module', ANY), ('name', STR),
-                                      ('pos', POS), ('until_pos', Opt(POS))], ret=ANY,
+                                      ('pos', POS), ('until_pos', Opt(POS))], ret=ANY, pure=True, effects=['extract'],
                           raises=['RefactoringError', 'ValueError'], assumed=False,
                           note='the refactoring proper: RefactoringError, or parso\'s ValueError for a position '
                                'outside the module')},
